@@ -306,3 +306,11 @@ Definition setup_txn_bytes (dbytes : list N) (sp : N) : list N :=
   c6_idle 1 0 sp ++ c6_pkt setup_token00 0 sp ++ c6_idle 2 0 sp ++ c6_pkt dbytes 0 sp ++ c6_idle 16 0 sp.
 Definition sweep_setup_extra (sp : N) (x : N) : list N :=
   setup_txn_bytes (data_bytes 195 ref_setup 0 ++ repeat (N.land x 255) (S (N.to_nat (N.shiftr x 8)))) sp.
+
+(* an aborted packet directly before a valid SETUP transaction.  sweep index x (10 bits): b = x mod 256;
+   x / 256 selects the aborted packet: [OUT pid; b] (token cut after one byte), [SETUP pid; b], [b] (any single
+   byte, incl. every PID cut after the PID), [IN pid; b; b] (complete-length token, mostly bad CRC). *)
+Definition sweep_abort_then_setup (sp : N) (x : N) : list N :=
+  let b := N.land x 255 in
+  let pk := match N.shiftr x 8 with 0 => [225; b] | 1 => [45; b] | 2 => [b] | _ => [105; b; b] end in
+  c6_idle 1 0 sp ++ c6_pkt pk 0 sp ++ c6_idle 2 0 sp ++ setup_txn ref_setup 0 sp.
